@@ -112,3 +112,25 @@ PROPS = {
         "explanation": "Verus: the quoting decision (non_quoted_token, non_quoted_graphic_token), the per-character escapes (char_to_string) and the atom writer print_op_addendum are proved, for atoms of every length over all of Unicode (class predicates uninterpreted), against a specification written from the property statement; Kani re-checks the escapes on the real String code and (thorough tier, bounded: atoms of at most 4 ASCII characters) the decision with std's real Unicode tables",
     },
 }
+
+
+# Functions that a property's mechanisms name (or that sit between them and the caller) but that could not be brought under
+# a contract. Their token text is hashed into the ledger; when it changes, the contracts say nothing about the new text:
+# the check is UNDECIDED for that function and the property's replay oracle stands in (bounded), see DESIGN 8.8.
+WATCH = {
+    "C06": [("src/indexing.rs", "compute_indices"), ("src/indexing.rs", "index_term"), ("src/indexing.rs", "index_constant", r"impl < I : Indexer > CodeOffsets < I >"),
+            ("src/indexing.rs", "index_structure", r"impl < I : Indexer > CodeOffsets < I >"), ("src/indexing.rs", "index_list", r"impl < I : Indexer > CodeOffsets < I >"),
+            ("src/indexing.rs", "switch_on", r"impl Indexer for StaticCodeIndices"), ("src/indexing.rs", "switch_on", r"impl Indexer for DynamicCodeIndices"),
+            ("src/indexing.rs", "second_level_index", r"impl Indexer for StaticCodeIndices"), ("src/indexing.rs", "second_level_index", r"impl Indexer for DynamicCodeIndices"),
+            ("src/indexing.rs", "switch_on_list", r"impl Indexer for StaticCodeIndices"), ("src/indexing.rs", "switch_on_list", r"impl Indexer for DynamicCodeIndices"),
+            ("src/indexing.rs", "merge_clause_index"), ("src/machine/mod.rs", "next_applicable_clause"), ("src/machine/mod.rs", "next_inner_applicable_clause"),
+            ("src/machine/mod.rs", "next_clause_applicable")],
+    "C20": [("src/machine/copier.rs", "copy_partial_string"), ("src/machine/copier.rs", "copy_list"), ("src/machine/heap.rs", "allocate_pstr"),
+            ("src/machine/heap.rs", "allocate_cstr"), ("src/machine/heap.rs", "slice_to_str"), ("src/machine/heap.rs", "char_at"),
+            ("src/machine/partial_string.rs", "pre_cycle_discovery_stepper"), ("src/machine/partial_string.rs", "post_cycle_discovery_stepper"),
+            ("src/machine/partial_string.rs", "to_string_mut"), ("src/machine/partial_string.rs", "walk_hare_to_cycle_end")],
+    "C13": [("src/heap_iter.rs", "from", r"impl < 'a > ParallelHeapIter < 'a >")],
+    "C55": [("src/heap_print.rs", "requires_space"), ("src/heap_print.rs", "ambiguity_check"), ("src/heap_print.rs", "print_op"), ("src/heap_print.rs", "print_impromptu_atom")],
+    "C33": [("src/machine/heap.rs", "allocate_pstr"), ("src/machine/heap.rs", "allocate_cstr"), ("src/machine/heap.rs", "write_with"),
+            ("src/machine/heap.rs", "functor_writer", r"impl Heap")],
+}
